@@ -403,6 +403,136 @@ def gen_structured(tier):
     for c in _batched(ops):
         yield c
 
+
+# ------------------------------------------------------------------------------------------ "own output" families
+# Inputs built from each codec's OUTPUT alphabet and escape syntax (already-encoded text fed to the encoder again, strings
+# made only of escape characters), exhaustive small alphabets of those characters, and position / length-residue sweeps
+# (a specific byte value at a specific position, lengths over every residue mod 3 / 4 / 16 / 64). Deterministic, both tiers.
+URL_ALPHA = b'%41Afg +/'
+B64_ALPHA = b'A/+9z=-\x80 '
+HEX_ALPHA = b'09afAFg :'
+
+
+def _strings(alpha, maxlen, minlen=0):
+    import itertools
+    for ln in range(minlen, maxlen + 1):
+        for t in itertools.product(alpha, repeat=ln):
+            yield bytes(t)
+
+
+def _url_model_encode(x, pm):
+    spec = b' +&=<>"#,%{}|\\^[]`;?:@$' + (b'' if pm else b'/.')
+    out = bytearray()
+    for c in x:
+        if c in spec or not (32 <= c <= 126): out += b'%%%02X' % c
+        else: out.append(c)
+    return bytes(out)
+
+
+def gen_own_output(tier):
+    ops = []
+    # ---- URL: exhaustive over the escape syntax, both modes; hand-picked already-encoded texts; repeated encoding
+    for i, x in enumerate(_strings(URL_ALPHA, 4)):
+        ops.append('url.enc %s 0' % hx(x)); ops.append('url.enc %s 1' % hx(x))
+        ops.append('url.rt %s %d' % (hx(x), i & 1))
+        if len(x) <= 3: ops.append('url.rt %s %d' % (hx(x), 1 - (i & 1))); ops.append('url.dec %s' % hx(x))
+    texts = [b'%41', b'100%25', b'100%25 off', b'%%', b'%2', b'+', b'%2B', b'%2b', b'%zz', b'%4', b'%', b'a%41b', b'%25', b'%2541',
+             b'%41%42', b'%%41', b'%4%41', b'%41%', b'x%00y', b'%7e%7E', b'%ff%FF%fF', b'/a/b.c?d=e&f=%20', b'a+b c%2Bd', b'%25252525',
+             b'%C3%A9', b'\xc3\xa9%c3%a9', b'%0', b'%g1', b'%1g', b'%%%', b'%41' * 20, b'%' * 33, b'+' * 17, b'%2' * 9 + b'%']
+    for x in texts:
+        for pm in (0, 1):
+            e1 = _url_model_encode(x, pm); e2 = _url_model_encode(e1, pm)
+            for y in (x, e1, e2):
+                ops.append('url.enc %s %d' % (hx(y), pm)); ops.append('url.rt %s %d' % (hx(y), pm))
+            ops.append('url.dec %s' % hx(x)); ops.append('url.dec %s' % hx(e1))
+    for b in range(256):                       # '%' followed by every byte value and a hex digit, and vice versa
+        ops.append('url.rt 25%02x41 %d' % (b, b & 1)); ops.append('url.rt 2541%02x %d' % (b, b & 1))
+        ops.append('url.enc 25%02x66 0' % b); ops.append('url.enc 4125%02x 1' % b)
+    # ---- Base64: base64 text encoded again (incl. '='), alphabet-only strings as encoder AND decoder input,
+    #      every byte value at every position residue, every length residue
+    for x in _strings(B64_ALPHA, 4, 1):
+        if len(x) <= 3 or x[0] in b'A=-':
+            ops.append('b64.rt %s' % hx(x)); ops.append('b64.enc %s ref=%s' % (hx(x), hx(_b64.b64encode(x))))
+        if len(x) == 4:
+            dl = 3 - (1 if x[-1:] == b'=' else 0) - (1 if x[-2:-1] == b'=' else 0)
+            ops.append('b64.dec %s %d' % (hx(x), dl)); ops.append('b64.decvec %s' % hx(x))
+    for x in (b'QQ==', b'QUI=', b'QUJD', b'====', b'=', b'==', b'A===', b'QUJDRA==', b'+/+/', b'AAAA', b'////'):
+        e1 = _b64.b64encode(x); e2 = _b64.b64encode(e1)
+        for y in (x, e1, e2):
+            ops.append('b64.rt %s' % hx(y)); ops.append('b64.enc %s ref=%s' % (hx(y), hx(_b64.b64encode(y))))
+            ops.append('b64.dec %s %d' % (hx(y), len(y))); ops.append('b64.decvec %s' % hx(y))
+    for pos in range(9):
+        for b in range(256):
+            x = bytearray(b'\x00\x10\x83\x10\x51\x87\x20\x92\x8b'); x[pos] = b
+            ops.append('b64.rt %s' % hx(x))
+            if b % 8 == pos % 8: ops.append('b64.enc %s ref=%s' % (hx(x), hx(_b64.b64encode(bytes(x)))))
+    for ln in range(1, 68):
+        x = bytes((i * 37 + ln) & 0xff for i in range(ln))
+        ops.append('b64.rt %s' % hx(x)); ops.append('b64.enc %s ref=%s' % (hx(x), hx(_b64.b64encode(x))))
+        el = (ln + 2) // 3 * 4
+        ops.append('b64.encbuf %s %d' % (hx(x), el)); ops.append('b64.encbuf %s %d' % (hx(x), el - 1))
+        ops.append('b64.dec %s %d' % (hx(_b64.b64encode(x)), ln))
+    # ---- hex strings: hex text as data, digit/delimiter alphabet as reader input, position and length sweeps
+    for x in _strings(HEX_ALPHA, 4, 0):
+        if len(x) <= 3:
+            ops.append('hex.rt %s 0 -' % hx(x)); ops.append('hex.rt %s 1 3a20' % hx(x)); ops.append('hex.enc %s 1 20' % hx(x))
+        ops.append('hex.decvec %s -' % hx(x)); ops.append('hex.decvec %s 3a20' % hx(x))
+        if len(x) == 4: ops.append('hex.decbuf %s 2' % hx(x)); ops.append('hex.decbuf %s 1' % hx(x))
+    for pos in range(8):
+        for b in range(256):
+            x = bytearray(b'\x01\x23\x45\x67\x89\xab\xcd\xef'); x[pos] = b
+            ops.append('hex.rt %s %d %s' % (hx(x), (b ^ pos) & 1, ('-', '20', '3a', '2c20')[(b + pos) % 4]))
+    for ln in range(0, 41):
+        x = bytes((i * 29 + ln) & 0xff for i in range(ln))
+        ops.append('hex.rt %s %d -' % (hx(x), ln & 1)); ops.append('hex.rt %s %d 20' % (hx(x), 1 - (ln & 1)))
+        ops.append('hex.enc %s 0 20' % hx(x))
+        t = x.hex().encode()
+        ops.append('hex.decbuf %s %d' % (hx(t), ln)); ops.append('hex.decbuf %s %d' % (hx(t), max(ln - 1, 0)))
+        ops.append('hex.decvec %s -' % hx(t)); ops.append('hex.rt %s 0 -' % hx(t))
+    # ---- CRC: every byte value at every position of a short message, every length residue, message ++ own CRC, seeds
+    for pos in range(5):
+        for b in range(256):
+            x = bytearray(5); x[pos] = b
+            ops.append(crc32_op(bytes(x))); ops.append('crc16 %s 65535' % hx(x))
+            if pos < 2: ops.append('crc32 %s %d' % (hx(x), (b * 0x01010101) & 0xffffffff)); ops.append('crc16 %s %d' % (hx(x), b * 257))
+    for ln in range(0, 70):
+        x = bytes((i * 101 + ln) & 0xff for i in range(ln))
+        ops.append(crc32_op(x)); ops.append('crc16 %s 65535' % hx(x)); ops.append('sum8 %s' % hx(x)); ops.append('sum16 %s' % hx(x))
+        ops.append(crc32_op(x + (zlib.crc32(x) & 0xffffffff).to_bytes(4, 'little')))
+        ops.append(md5_op(x)); ops.append(md5_op(hashlib.md5(x).hexdigest().encode()))
+    for seed in (0, 1, 0x8000, 0xfffe, 0xffff, 0x1021, 0x00ff, 0xff00):
+        ops.append('crc16 313233343536373839 %d' % seed); ops.append('crc16 - %d' % seed)
+    for seed in (0, 1, 0x80000000, 0xfffffffe, 0xffffffff, 0xedb88320, 0x04c11db7, 0x0000ffff):
+        ops.append('crc32 313233343536373839 %d' % seed); ops.append('crc32 - %d' % seed)
+    # ---- AES: one distinguished byte at every position of block and of key; S-box corner values
+    for pos in range(16):
+        for v in (0x01, 0x80, 0xff, 0x1b, 0x63, 0x52):
+            e = bytearray(16); e[pos] = v
+            z = bytes(16); f = bytes([0xff]) * 16
+            for (k, blk) in ((bytes(e), z), (z, bytes(e)), (bytes(e), bytes(e)), (f, bytes(e))):
+                ops.append('aes.enc %s %s' % (hx(k), hx(blk))); ops.append('aes.dec %s %s' % (hx(k), hx(blk)))
+            ops.append('aes.rt %s %s' % (hx(bytes(e)), hx(bytes(reversed(e)))))
+    # ---- serializer / deserializer: every width at every offset 0..8, exact and one-short capacity, both byte orders; POD sizes
+    for e in 'bl':
+        for k in range(0, 9):
+            pre = bytes(range(0xa0, 0xa0 + k))
+            for w in (1, 2, 4, 8):
+                v = 0x0102030405060708 & ((1 << (8 * w)) - 1)
+                for cap in (k + w, k + w - 1):
+                    ops += ['ser.raw %d %s' % (cap, e), 'ser.bytes %s' % hx(pre), 'ser.int %d %d' % (w, v), 'ser.int 1 255']
+                ops += ['ser.vec %s %s' % (hx(pre), e), 'ser.bytes %s' % hx(pre), 'ser.int %d %d' % (w, v)]
+                data = pre + bytes(range(1, w + 1))
+                ops += ['des.new %s %s' % (hx(data), e), 'des.skip %d' % k, 'des.int %d' % w, 'des.int 1']
+                ops += ['des.new %s %s' % (hx(data[:-1]), e), 'des.skip %d' % k, 'des.int %d' % w, 'des.setpos %d' % k, 'des.nocopy %d' % (w - 1)]
+                ops.append('ser.rt %s r:%s i%d:%d e:%s i%d:%d' % (e, hx(pre), w, v, 'l' if e == 'b' else 'b', w, v))
+            ops.append('ser.rt %s p:%s r:%s p:%s' % (e, hx(bytes(range(1, k + 2))), hx(pre), hx(bytes(range(1, k + 2)))))
+            ops += ['des.new %s %s' % (hx(bytes(range(1, k + 2))), e), 'des.pod %d' % (k + 1), 'des.setpos 0', 'des.bytes %d' % (k + 1), 'des.pod 1']
+    # ---- scalable integer: the writer's output parsed back when followed by more output / truncated by one byte
+    for v in si_values(None):
+        ops.append('si.rt %d' % v)
+    for c in _batched(ops):
+        yield c
+
 def gen(rng, tier):
     n = 500 if tier == 'quick' else 6000
     # malformed stream: both sides answer bad-op
@@ -421,6 +551,8 @@ def gen(rng, tier):
            'aes.dec 000102030405060708090a0b0c0d0e0f 69c4e0d86a7b0430d8cdb78070b4c55a',
            'crc32 313233343536373839 4294967295', 'crc16 313233343536373839 65535']
     for c in gen_structured(tier):
+        yield c
+    for c in gen_own_output(tier):
         yield c
     vals = si_values(rng)
     if tier == 'thorough':
